@@ -11,6 +11,7 @@ import (
 	"io"
 	"strconv"
 	"strings"
+	"sync/atomic"
 
 	"github.com/keybase/saltpack"
 	"github.com/keybase/saltpack/encoding/basex"
@@ -151,20 +152,56 @@ func parseResolver(s string) saltpack.SymmetricKeyResolver {
 
 // readAllCollect reads r to the end with the given buffer size, returning what
 // was released and the terminal error (nil = clean EOF).
+// consumerTurn rotates the way receiver streams are consumed (a plain Read loop / io.Copy, which uses
+// io.WriterTo when the stream offers it). Atomic: the concurrent workload calls goExec from many goroutines.
+var consumerTurn uint32
+
+// readAllCollect consumes a receiver stream the way applications do — a Read loop or io.Copy — and then
+// TOUCHES IT AGAIN after it has ended, cleanly or with an error (a retry loop, a second io.Copy, a deferred
+// io.ReadAll): whatever those later calls hand out counts as released. A stream whose error is not sticky, or
+// that resumes behind a packet it rejected, shows up as extra released bytes.
 func readAllCollect(r io.Reader, bufSize int) ([]byte, error) {
 	var out []byte
-	buf := make([]byte, bufSize)
-	for i := 0; i < 1<<30; i++ {
-		n, err := r.Read(buf)
-		out = append(out, buf[:n]...)
-		if err == io.EOF {
-			return out, nil
+	var first error
+	turn := atomic.AddUint32(&consumerTurn, 1)
+	if turn%2 == 0 {
+		var b bytes.Buffer
+		_, first = io.Copy(&b, r)
+		out = b.Bytes()
+	} else {
+		buf := make([]byte, bufSize)
+		ended := false
+		for i := 0; i < 1<<30; i++ {
+			n, err := r.Read(buf)
+			out = append(out, buf[:n]...)
+			if err == io.EOF {
+				ended = true
+				break
+			}
+			if err != nil {
+				first, ended = err, true
+				break
+			}
 		}
-		if err != nil {
-			return out, err
+		if !ended {
+			return out, fmt.Errorf("reader never ended")
 		}
 	}
-	return out, fmt.Errorf("reader never ended")
+	// touch it again, both ways
+	var b bytes.Buffer
+	_, err2 := io.Copy(&b, r)
+	out = append(out, b.Bytes()...)
+	buf := make([]byte, 64)
+	n, err3 := r.Read(buf)
+	out = append(out, buf[:n]...)
+	if first == nil && (err2 != nil || (err3 != nil && err3 != io.EOF)) {
+		// a stream that ended cleanly must keep saying so
+		if err2 != nil {
+			return out, err2
+		}
+		return out, err3
+	}
+	return out, first
 }
 
 func boolS(b bool) string {
@@ -437,6 +474,18 @@ func execEncOpen(t []string) string {
 	case "armstream":
 		arm, _ := saltpack.Armor62Seal(msg, saltpack.MessageTypeEncryption, "")
 		mki, r, _, err = saltpack.NewDearmor62DecryptStream(parseValidator(t[1]), readerFor([]byte(arm)), ring)
+	case "dispatch", "armdispatch":
+		// the convenience entry point: classify, then the decoder for what was found
+		src := msg
+		if currentEP == "armdispatch" {
+			arm, _ := saltpack.Armor62Seal(msg, saltpack.MessageTypeEncryption, "")
+			src = []byte(arm)
+		}
+		var typ saltpack.MessageType
+		r, typ, mki, _, _, _, _, err = saltpack.ClassifyEncryptedStreamAndMakeDecoder(readerFor(src), ring, nil)
+		if err == nil && typ != saltpack.MessageTypeEncryption {
+			return fmt.Sprintf("res dispatched-as-%d rel=- calls=%s -", int(typ), log.String())
+		}
 	default:
 		mki, r, err = saltpack.NewDecryptStream(parseValidator(t[1]), msgReader(msg), ring)
 	}
@@ -521,6 +570,17 @@ func execScOpen(t []string) string {
 	case "armstream":
 		arm, _ := saltpack.Armor62Seal(msg, saltpack.MessageTypeEncryption, "")
 		spk, r, _, err = saltpack.NewDearmor62SigncryptOpenStream(readerFor([]byte(arm)), ring, parseResolver(t[6]))
+	case "dispatch", "armdispatch":
+		src := msg
+		if currentEP == "armdispatch" {
+			arm, _ := saltpack.Armor62Seal(msg, saltpack.MessageTypeEncryption, "")
+			src = []byte(arm)
+		}
+		var typ saltpack.MessageType
+		r, typ, _, spk, _, _, _, err = saltpack.ClassifyEncryptedStreamAndMakeDecoder(readerFor(src), ring, parseResolver(t[6]))
+		if err == nil && typ != saltpack.MessageTypeSigncryption {
+			return fmt.Sprintf("res dispatched-as-%d rel=- calls=%s sender=-", int(typ), log.String())
+		}
 	default:
 		spk, r, err = saltpack.NewSigncryptOpenStream(msgReader(msg), ring, parseResolver(t[6]))
 	}
